@@ -87,6 +87,9 @@ where
         let begin_idx = self.counter().fetch_and_add(number_to_fetch);
 
         loop {
+            if self.completed.load(atomic::Ordering::Acquire) {
+                return None;
+            }
             let yielded_count = self.yielded_counter.current();
             match begin_idx.cmp(&yielded_count) {
                 // begin_idx==yielded_count => it is our job to provide the items
@@ -106,6 +109,9 @@ where
 
     fn get(&self, item_idx: usize) -> Option<T> {
         loop {
+            if self.completed.load(atomic::Ordering::Acquire) {
+                return None;
+            }
             let yielded_count = self.yielded_counter.current();
             match item_idx.cmp(&yielded_count) {
                 // item_idx==yielded_count => it is our job to provide the item
@@ -162,7 +168,6 @@ where
     }
 
     fn early_exit(&self) {
-        self.counter().store(usize::MAX);
         self.completed.store(true, atomic::Ordering::SeqCst);
     }
 }
